@@ -1195,11 +1195,12 @@ impl TDigestView<'_> {
                 }
                 let w1 = weight - weight_so_far - left_weight;
                 let w2 = weight_so_far + dw - weight - right_weight;
+                // w1 is the distance from centroid i, so it is the weight of centroid i + 1
                 return Some(weighted_average(
                     self.centroids[i].mean,
-                    w1,
-                    self.centroids[i + 1].mean,
                     w2,
+                    self.centroids[i + 1].mean,
+                    w1,
                 ));
             }
             weight_so_far += dw;
